@@ -70,6 +70,9 @@ def call(op, args, pool, rng):
         return penman.encode(a[0], model=m)
     if op == 'decode_encode':
         return penman.decode(penman.encode(a[0], model=m), model=m)
+    if op == 'copy_graph':
+        import copy
+        return copy.deepcopy(a[0])
     if op == 'canonicalize_roles':
         return transform.canonicalize_roles(a[0], m)
     if op == 'reify_edges':
@@ -115,12 +118,12 @@ def call(op, args, pool, rng):
     raise ValueError(op)
 
 
-POOLED = {'interpret', 'configure', 'reconfigure', 'decode_encode', 'canonicalize_roles', 'reify_edges', 'dereify_edges',
+POOLED = {'interpret', 'configure', 'reconfigure', 'decode_encode', 'copy_graph', 'canonicalize_roles', 'reify_edges', 'dereify_edges',
           'reify_attributes', 'indicate_branches', 'union', 'difference'}
 
 
-def replay(h):
-    pool = initial_pool(h['pool_seed'])
+def replay(h, pool=None):
+    pool = initial_pool(h['pool_seed']) if pool is None else pool
     rng = random.Random(0)
     steps = []
     for c in h['hist']:
@@ -149,8 +152,10 @@ def dr_result_type(op):
     return 'tree' if op in ('configure', 'reconfigure', 'canonicalize_roles') else 'graph'
 
 
-def _mp_replay(h):
-    return replay(h)
+def _mp_replay(job):
+    # the pool was built in the parent and arrives here pickled: its markers are no longer the parent's singletons
+    h, pool = job
+    return replay(h, pool)
 
 
 def main():
@@ -158,7 +163,7 @@ def main():
     hs = [json.loads(l) for l in sys.stdin if l.strip()]
     if use_mp:
         with multiprocessing.get_context('fork').Pool(2) as p:
-            logs = p.map(_mp_replay, hs)
+            logs = p.map(_mp_replay, [(h, initial_pool(h['pool_seed'])) for h in hs])
     else:
         logs = [replay(h) for h in hs]
     for log in logs:
